@@ -522,8 +522,12 @@ def gen_cases(rng, tier):
         cases.append(g_e2e_case(rng, ml, want))
     for i in range(12 if tier == "quick" else 160):
         cases.append(g_rails_case(rng, "regex" if rng.random() < 0.1 else None))
-    for i in range(8 if tier == "quick" else 90):
-        cases.append(api.g_api_case(rng, tier))
+    # api cases are the most expensive single cases (~100 generate_async calls each): spread them over the list so that
+    # the runner's chunked pool does not hand all of them to one worker
+    apis = [api.g_api_case(rng, tier) for _ in range(8 if tier == "quick" else 90)]
+    step = max(1, len(cases) // (len(apis) + 1))
+    for i, c in enumerate(apis):
+        cases.insert(min(len(cases), (i + 1) * step + i), c)
     return cases
 
 
